@@ -1,5 +1,6 @@
 """C02 Biggest single objects are the true maxima."""
-from ._camp import run_campaign
+from ._camp import run_campaign, api_delay_stage
+from .. import oracle as _O
 
 LEVEL = "exploration"
 
@@ -15,4 +16,5 @@ def run(chk, b, tier):
                  "with the model's maxima over the reachable set (0 when the kind is absent). A third of the runs sit "
                  "behind the shim's permute mode so that the maximal object is met at different positions of the listing. "
                  "Non-trivial: >=3 reachable objects.", permute=0.35)
+    api_delay_stage(chk, b, _O.MAXOBJ_KEYS + (["reference_count"] if "C02" == "C01" else []), "C02", 6 if tier == "quick" else 150)
     chk.assumptions += ["reference model and generator trusted; generator self-checked against git"]
